@@ -248,8 +248,15 @@ def _find_first_spdx_comment(
             if not comment:
                 continue
         if contains_reuse_info(comment):
+            # The comment consists of whole lines. Measure them in the text
+            # itself: its line breaks need not all be a single character
+            # (a header pasted from a CRLF file, a form feed, ...).
+            lines = text[index:].splitlines(keepends=True)
+            length = sum(
+                len(line) for line in lines[: comment.count("\n") + 1]
+            )
             return _TextSections(
-                text[:index], comment + "\n", text[index + len(comment) + 1 :]
+                text[:index], comment + "\n", text[index + length :]
             )
 
     raise MissingReuseInfoError()
